@@ -24,7 +24,7 @@ RULE = ('generated tagged BAMs (1-3 contigs, 1-4 cells, read-1/read-2/single-end
 ASSUMPTIONS = ['max_fragment_size >= distance between a read and its DS site (the fetch margin must cover it)',
                'get_binned_counts applies its documented default filter (read 1, not duplicate, not qc-fail, DS present) without MAPQ / mp']
 MIN_NONTRIVIAL = {'quick': 150, 'thorough': 8000}
-REQUIRED_MONITORS = ['multibam:count_runs', 'pipeline:count_runs', 'ret:obtain_counts', 'ret:get_binned_counts', 'oracle:matrix_cells_compared', 'splits:compared', 'lib:non_proper_pairs',
+REQUIRED_MONITORS = ['config:bin_size_not_a_round_number', 'multibam:count_runs', 'pipeline:count_runs', 'ret:obtain_counts', 'ret:get_binned_counts', 'oracle:matrix_cells_compared', 'splits:compared', 'lib:non_proper_pairs',
                      'lib:sites_on_job_boundary', 'lib:reads_with_site_0', 'history:shared_options_dict_rounds', 'genomic_bins:count_runs', 'lib:read_name_shared_by_several_records']
 SHARD_TIMEOUT = {'quick': 900, 'thorough': 5400}
 
@@ -239,6 +239,10 @@ def run_case(case):
     acc = Acc()
     r = rng(case['seed'], 'C12', case['i'])
     bin_size = r.choice([100, 250, 1000])
+    if case['i'] % 4 == 2:
+        # bin sizes that are no round numbers (the bin of a site is site // bin_size for every integer, also where 1/bin_size is inexact)
+        bin_size = [49, 98, 103, 107, 161, 187, 196, 197, 206, 249, 253, 77, 333, 1001, 57, 93][(case['i'] // 4) % 16]
+        acc.count('config:bin_size_not_a_round_number')
     mfs = r.choice([50, 300, 1000])
     D = r.choice([0, 5, 40, mfs])      # a site may be as far from its read as the fetch margin allows, in either direction
     min_mq = r.choice([0, 20, 50])
